@@ -298,7 +298,10 @@ def add_column(df: TableDataFrame, name: str, values, unit: Optional[str] = None
     keyword arguments will be forwarded to ColumnMetadata constructor together with unit
     """
     df[name] = values
-    columns = get_table_info(df, check_dataframe=False).columns
+    table_info = get_table_info(df, check_dataframe=False)
+    # data and metadata change together: force validation on the next checked access
+    table_info._last_dataframe_state = None
+    columns = table_info.columns
 
     new_col = (
         ColumnMetadata.from_dtype(df[name].dtype, **kwargs)
